@@ -437,7 +437,7 @@ def s_aop(o, dflt):
     if k == "sch":
         return f"asch {core.s_spec(o)} {s_runs(o.get('runs') or [dflt])}"
     if k == "run":
-        return f"arun {o['until']} {o.get('fuel', 20000)}"
+        return f"arun {o['until']} {o.get('fuel', 200000)}"
     if k == "del":
         return f"adel {o['key']}"
     if k == "dtags":
